@@ -1,22 +1,15 @@
 import Lemmas.Alter.Basic
-/-! every statement the model emits names the requested table and schema — except Oracle's
-`COMMENT ON COLUMN` -/
+/-! every statement the model emits names the requested table and schema -/
 namespace Lemmas.Alter
 open Model.Alter Spec.Alter
-
-def isCommentC : Construct → Bool
-  | .columnComment _ => true
-  | _ => false
 
 /-- all statements of an output name table reference `t` -/
 def allT (t : TRef) (o : Out) : Bool := o.stmts.all (fun st => Stmt.tref st == t)
 
 theorem compile_tref (d : Dialect) (t : TRef) (c : String) (k : Construct) (s : Stmt)
-    (h : compile d t c k = .ok s)
-    (hk : d ≠ .oracle ∨ isCommentC k = false ∨ t.schema = none) : Stmt.tref s = t := by
-  cases k <;> cases d <;> simp [compile, Dialect.isMySQL, isCommentC] at h hk <;>
+    (h : compile d t c k = .ok s) : Stmt.tref s = t := by
+  cases k <;> cases d <;> simp [compile, Dialect.isMySQL] at h <;>
     (try (repeat' split at h)) <;> simp_all [Stmt.tref] <;> (try (subst h; simp [Stmt.tref]))
-  cases t; simp_all
 
 theorem allT_ok (t : TRef) : allT t Out.ok = true := rfl
 theorem allT_fail (t : TRef) (e : Err) : allT t (Out.fail e) = true := rfl
@@ -30,8 +23,7 @@ theorem allT_andThen (t : TRef) (a b : Out) (ha : allT t a = true) (hb : allT t 
     simp only [allT, List.all_append, Bool.and_eq_true] at *
     exact ⟨ha, hb⟩
 
-theorem emitAll_allT (d : Dialect) (t : TRef) (c : String) (ks : List Construct)
-    (hk : ∀ k ∈ ks, d ≠ .oracle ∨ isCommentC k = false ∨ t.schema = none) :
+theorem emitAll_allT (d : Dialect) (t : TRef) (c : String) (ks : List Construct) :
     allT t (emitAll d t c ks) = true := by
   induction ks with
   | nil => rfl
@@ -40,89 +32,54 @@ theorem emitAll_allT (d : Dialect) (t : TRef) (c : String) (ks : List Construct)
     cases hc : compile d t c k with
     | error e => rfl
     | ok s =>
-      have h1 := compile_tref d t c k s hc (hk k (by simp))
-      have h2 := ih (fun k' hk' => hk k' (by simp [hk']))
+      have h1 := compile_tref d t c k s hc
       simp only [allT, List.all_cons, Bool.and_eq_true, beq_iff_eq] at *
-      exact ⟨h1, h2⟩
+      exact ⟨h1, ih⟩
 
-theorem emitAll_allT_notOracle (d : Dialect) (hd : d ≠ .oracle) (t : TRef) (c : String)
-    (ks : List Construct) : allT t (emitAll d t c ks) = true :=
-  emitAll_allT d t c ks (fun _ _ => Or.inl hd)
-
-theorem defaultConstructs_comment (r : Req) (k : Construct) (hk : k ∈ defaultConstructs r)
-    (hc : isCommentC k = true) : r.comment ≠ .unset := by
-  intro h
-  unfold defaultConstructs at hk
-  simp only [h, List.append_nil, List.mem_append] at hk
-  rcases hk with ((hk | hk) | hk) | hk
-  · cases hn : r.nullable <;> simp [hn] at hk; subst hk; simp [isCommentC] at hc
-  · cases hs : r.serverDefault <;> simp [hs] at hk <;> (repeat' split at hk) <;> simp at hk <;>
-      (subst hk; simp [isCommentC] at hc)
-  · cases ht : r.type_ <;> simp [ht] at hk; subst hk; simp [isCommentC] at hc
-  · cases hn : r.newName <;> simp [hn] at hk; subst hk; simp [isCommentC] at hc
-
-/-- Oracle's COMMENT ON COLUMN is the only statement that does not carry the schema -/
-def schemaHyp (d : Dialect) (r : Req) : Prop :=
-  d ≠ .oracle ∨ r.comment = .unset ∨ (tref r).schema = none
-
-theorem defaultAlter_allT (d : Dialect) (r : Req) (h : schemaHyp d r) :
-    allT (tref r) (defaultAlter d r) = true := by
-  unfold defaultAlter
-  apply emitAll_allT
-  intro k hk
-  rcases h with h | h | h
-  · exact Or.inl h
-  · refine Or.inr (Or.inl ?_)
-    cases hc : isCommentC k with
-    | false => rfl
-    | true => exact absurd h (defaultConstructs_comment r k hk hc)
-  · exact Or.inr (Or.inr h)
-
-theorem implAlter_allT (d : Dialect) (r : Req) (h : schemaHyp d r) :
-    allT (tref r) (implAlter d r) = true := by
+theorem implAlter_allT (d : Dialect) (r : Req) : allT (tref r) (implAlter d r) = true := by
   cases d with
-  | default => exact defaultAlter_allT _ r h
-  | sqlite => exact defaultAlter_allT _ r h
-  | oracle => exact defaultAlter_allT _ r h
+  | default => exact emitAll_allT _ _ _ _
+  | sqlite => exact emitAll_allT _ _ _ _
+  | oracle => exact emitAll_allT _ _ _ _
   | postgresql =>
     simp only [implAlter, pgAlter]
     split
     · rfl
-    · exact emitAll_allT_notOracle _ (by decide) _ _ _
+    · exact emitAll_allT _ _ _ _
   | mysql =>
     simp only [implAlter, mysqlAlter]
     apply allT_andThen
     · split
-      · exact emitAll_allT_notOracle _ (by decide) _ _ _
+      · exact emitAll_allT _ _ _ _
       · rfl
     · repeat' split
-      all_goals first | rfl | exact emitAll_allT_notOracle _ (by decide) _ _ _
+      all_goals first | rfl | exact emitAll_allT _ _ _ _
   | mariadb =>
     simp only [implAlter, mysqlAlter]
     apply allT_andThen
     · split
-      · exact emitAll_allT_notOracle _ (by decide) _ _ _
+      · exact emitAll_allT _ _ _ _
       · rfl
     · repeat' split
-      all_goals first | rfl | exact emitAll_allT_notOracle _ (by decide) _ _ _
+      all_goals first | rfl | exact emitAll_allT _ _ _ _
   | mssql =>
     simp only [implAlter, mssqlAlter]
     split
     · rfl
     · apply allT_andThen
-      · exact emitAll_allT_notOracle _ (by decide) _ _ _
+      · exact emitAll_allT _ _ _ _
       · apply allT_andThen
         · split
           · apply allT_andThen
             · split
-              · exact emitAll_allT_notOracle _ (by decide) _ _ _
+              · exact emitAll_allT _ _ _ _
               · rfl
             · split
-              · exact emitAll_allT_notOracle _ (by decide) _ _ _
+              · exact emitAll_allT _ _ _ _
               · rfl
           · rfl
         · split
-          · exact emitAll_allT_notOracle _ (by decide) _ _ _
+          · exact emitAll_allT _ _ _ _
           · rfl
 
 theorem typeConstraint_allT (d : Dialect) (t : TRef) (c : String) (ty : Ty) :
@@ -133,13 +90,13 @@ theorem typeConstraint_allT (d : Dialect) (t : TRef) (c : String) (ty : Ty) :
   | some nm =>
     cases nm <;> cases d <;> simp [allT, Out.ok, Out.fail, emitAll, compile, Stmt.tref]
 
-theorem alterColumn_allT (d : Dialect) (r : Req) (h : schemaHyp d r) :
+theorem alterColumn_allT (d : Dialect) (r : Req) :
     allT (tref r) (alterColumn d r) = true := by
   unfold alterColumn
   apply allT_andThen
   · cases r.exType <;> cases r.type_ <;> simp [allT_ok, (typeConstraint_allT _ _ _ _).1]
   · apply allT_andThen
-    · exact implAlter_allT d r h
+    · exact implAlter_allT d r
     · cases r.type_ <;> simp [allT_ok, (typeConstraint_allT _ _ _ _).2]
 
 end Lemmas.Alter
